@@ -411,7 +411,7 @@ func (s *vfSession) clientVerdict() (string, string) {
 func (s *vfSession) typeInput(b []byte) { s.userIn.feed(b) }
 
 // shellOutput makes "the remote shell" print something (only meaningful while no server child is attached).
-func (s *vfSession) shellOutput(b []byte) { s.s2c.feed(b) }
+func (s *vfSession) shellOutput(b []byte) { s.s2c.feedRaw(b) }
 
 func (s *vfSession) close() {
 	s.killServer()
